@@ -74,7 +74,7 @@ class ReorderColumnsOp(BaseOp):
         current_columns = list(df_new.columns)
         missing_columns = set(self.column_order).difference(
             set(df_new.columns))
-        ordered = self.column_order
+        ordered = list(self.column_order)
         if missing_columns and not self.ignore_missing:
             raise ValueError("MissingReorderedColumns",
                              f"{str(missing_columns)} are not in dataframe columns "
